@@ -345,7 +345,11 @@ func (rw *rewriter) stmt(s ast.Stmt) []ast.Stmt {
 		fl := &ast.FuncLit{Type: &ast.FuncType{Params: &ast.FieldList{}}, Body: &ast.BlockStmt{List: []ast.Stmt{&ast.ExprStmt{X: s.Call}}}}
 		return []ast.Stmt{call("Go", fl)}
 	case *ast.SendStmt:
-		rw.fail(s, "a channel send")
+		// the generator never emits sends; a changed one may: the simulator parks the sender until a
+		// receiver takes the value and only then lets a helper goroutine perform the real send
+		orig := &ast.SendStmt{Chan: s.Chan, Value: s.Value}
+		fl := &ast.FuncLit{Type: &ast.FuncType{Params: &ast.FieldList{}}, Body: &ast.BlockStmt{List: []ast.Stmt{orig}}}
+		return []ast.Stmt{call("Send", s.Chan, str(rw.src(s.Chan)), fl)}
 	case *ast.DeferStmt:
 		rw.fail(s, "defer")
 	case *ast.LabeledStmt:
